@@ -319,8 +319,16 @@ fn kind(out: &mut Vec<GSpec>) {
         cfgs.push(Cfg {
             name: format!("cmk{}", k),
             skip: vec![RuleSpec::helper("WHITESPACE", 'S', "\" \""), RuleSpec::helper("COMMENT", k, "\"#\" ~ \"#\"")],
-            quick_bodies: vec![],
-            thorough_bodies: vec![0],
+            quick_bodies: if k == 'X' || k == 'N' { vec![0] } else { vec![] },
+            thorough_bodies: if k == 'X' || k == 'N' { vec![4] } else { vec![0] },
+        });
+        // a skip rule whose body starts with something that matches without consuming input: if it were not
+        // matched atomically, the implicit skip inside it would re-enter it at the same position
+        cfgs.push(Cfg {
+            name: format!("cmp{}", k),
+            skip: vec![RuleSpec::helper("COMMENT", k, "!\"#b\" ~ \"#\" ~ \"a\"?")],
+            quick_bodies: if k == 'X' || k == 'S' { vec![0] } else { vec![] },
+            thorough_bodies: if k == 'X' || k == 'S' { vec![] } else { vec![0] },
         });
     }
     // explicit references to WHITESPACE / COMMENT from rules of every kind
